@@ -137,6 +137,11 @@ class Documentable:
     parsed_summary: Optional[ParsedDocstring] = None
     parsed_type: Optional[ParsedDocstring] = None
     docstring_lineno = 0
+    docstring_module: Optional['Module'] = None
+    """
+    The module in which the docstring is written, when it has been assigned
+    through C{__doc__}: it can be another one than the module of the object.
+    """
     linenumber: LineFromAst | LineFromDocstringField | Literal[0] = 0
     sourceHref: Optional[str] = None
     kind: Optional[DocumentableKind] = None
@@ -431,8 +436,11 @@ class Documentable:
         """
 
         linenumber: object
+        description = self.description
         if section in ('docstring', 'resolve_identifier_xref'):
             linenumber = self.docstring_lineno or self.linenumber
+            if self.docstring_lineno and self.docstring_module is not None:
+                description = self.docstring_module.description
         else:
             linenumber = self.linenumber
         if linenumber:
@@ -444,7 +452,7 @@ class Documentable:
 
         self.system.msg(
             section,
-            f'{self.description}:{linenumber}: {descr}',
+            f'{description}:{linenumber}: {descr}',
             thresh=thresh, 
             once=once)
 
